@@ -639,6 +639,39 @@ func c12Msg(c *ctx, cs c12Case) {
 		if !bytes.Equal(m.ToBytes(), ref.EncodeMessage(mm)) {
 			c.Violation("C12/msg/NewHSMSDataMessage/stored", fmt.Sprintf("bytes %x", m.ToBytes()), cs)
 		}
+		// round 10: a message that HAS BEEN ENCODED is stamped again, at every boundary of the session id (-1 = unset is
+		// legal and leaves nothing to encode), and each result once more: stored and encoded exactly, or refused
+		cur, curM := m, *mm
+		for step, s2 := range []int{-1, 65535, 0, -1, 256, 65536, -2, session, 255, -1, 1, 1 << 16, 1<<31 - 1, 65535} {
+			sys := [4]byte{byte(step), byte(s2), byte(s2 >> 8), 0xA5}
+			var next *ast.DataMessage
+			before := cur.ToBytes() // encoded first, every time
+			on := real.Try(func() { next = cur.SetSessionIDAndSystemBytes(s2, sys[:]) })
+			ok2 := s2 >= -1 && s2 <= 65535
+			c.Class("msg/restamp-of-an-encoded-message")
+			if ok2 == on.Panicked {
+				c.Violation("C12/msg/restamp-after-encoding", fmt.Sprintf("step %d: SetSessionIDAndSystemBytes(%d) on an encoded message: %s", step, s2, on), cs)
+				break
+			}
+			if !bytes.Equal(cur.ToBytes(), before) {
+				c.Violation("C12/msg/restamp-after-encoding/receiver-changed", fmt.Sprintf("step %d: the receiver encoded %x before and %x after SetSessionIDAndSystemBytes(%d)", step, clipB(before), clipB(cur.ToBytes()), s2), cs)
+				break
+			}
+			if !ok2 {
+				continue
+			}
+			nm := curM
+			nm.Session, nm.Sys = s2, sys
+			var want []byte
+			if s2 != -1 {
+				want = ref.EncodeMessage(&nm)
+			}
+			if got := next.ToBytes(); next.SessionID() != s2 || !bytes.Equal(got, want) || !bytes.Equal(next.SystemBytes(), sys[:]) {
+				c.Violation("C12/msg/restamp-after-encoding/stored", fmt.Sprintf("step %d: session %d sys %x stored as session %d sys %x, bytes %x want %x", step, s2, sys, next.SessionID(), next.SystemBytes(), clipB(got), clipB(want)), cs)
+				break
+			}
+			cur, curM = next, nm
+		}
 	}
 	if base {
 		// an item with variables is refused by the HSMS factory
@@ -1054,7 +1087,7 @@ func runC12(c *ctx) {
 			}
 		}
 	}
-	c.Required = []string{"num/fill-history-on-one-node", "num/fill-history-on-one-node/after-a-refused-fill", "msg/far-out-of-range-parameter", "num/width-argument", "num/out-of-domain-among-neighbours", "num/in-domain", "num/out-of-domain", "num/int-into-float", "float/non-finite", "float/overflow", "float/in-range", "binstr/valid", "binstr/invalid", "ascii/non-ascii-unicode", "ascii/invalid-utf8", "varname/valid", "varname/invalid", "varname/ellipsis", "msg/NewDataMessage", "msg/NewHSMSDataMessage", "msg/SetSessionID", "msg/fill-after-stamp", "structure/small-trees-encoded-side-by-side"}
+	c.Required = []string{"num/fill-history-on-one-node", "num/fill-history-on-one-node/after-a-refused-fill", "msg/far-out-of-range-parameter", "num/width-argument", "num/out-of-domain-among-neighbours", "num/in-domain", "num/out-of-domain", "num/int-into-float", "float/non-finite", "float/overflow", "float/in-range", "binstr/valid", "binstr/invalid", "ascii/non-ascii-unicode", "ascii/invalid-utf8", "varname/valid", "varname/invalid", "varname/ellipsis", "msg/NewDataMessage", "msg/NewHSMSDataMessage", "msg/SetSessionID", "msg/restamp-of-an-encoded-message", "msg/fill-after-stamp", "structure/small-trees-encoded-side-by-side"}
 }
 
 func replayC12(c *ctx, raw json.RawMessage) {
